@@ -18,7 +18,7 @@ VERIF = Path(__file__).resolve().parent.parent
 SPEC = VERIF / "spec"
 EVIDENCE = VERIF / "evidence"
 REPLAYS = VERIF / "replays"
-REPO = Path("/repo")
+REPO = Path(os.environ.get("VERIF_REPO", "/repo"))
 TLA_JARS = "/opt/veriftools/tla/tla2tools.jar:/opt/veriftools/tla/CommunityModules-deps.jar"
 NCPU = min(16, os.cpu_count() or 1)
 
